@@ -241,6 +241,8 @@ static const Job JOBS[] = {
     {'D', "Cd116", 1, 8, false}, {'B', "K40", 0, 0, false}, {'D', "Nd150", 0, 1, false}, {'D', "Ca48", 0, 15, false},
     {'D', "Mo100", 0, 22, false}, {'B', "Tl208", 0, 0, false}, {'D', "Xe136", 0, 20, false}, {'D', "Te130", 0, 13, false},
     {'B', "Eu152", 0, 0, false}, {'D', "Ge76", 0, 19, false},
+    {'D', "Nd150", 0, 20, false}, {'D', "Zr96", 0, 20, false}, // with Xe136: every isotope of the quadruple-beta mode in one process
+    {'D', "Se82", 0, 15, false},                                  // with Ca48: two isotopes of one quadrature mode
 };
 static const int NJOBS = sizeof(JOBS) / sizeof(JOBS[0]);
 
@@ -342,7 +344,31 @@ static int run_stress(uint64_t seed, int nthreads)
   int accepted = 0;
   for (int j = 0; j < NJOBS; j++)
     if (referr[j].empty()) accepted++;
-  fprintf(OUT, "{\"mode\":\"stress\",\"threads\":%d,\"streams\":%ld,\"events\":%ld,\"jobs\":%d,\"jobs_accepted\":%d,\"qng_calls\":%ld,\"qng_etol\":%ld,\"integration_with_handler_on\":%ld,", nthreads, streams,
+  // what every instance produced here, per configuration, for the comparison with the same configuration run ALONE in a process of
+  // its own (mode "alone"): the sequential reference of this process shares the process with the other configurations
+  auto stream_hash = [](const std::vector<std::string> & v, const std::string & err) {
+    uint64_t h = hash_str(err);
+    for (auto & x : v) h = h * 1099511628211ull ^ hash_str(x);
+    return h;
+  };
+  std::string jh = "[";
+  for (int j = 0; j < NJOBS; j++) {
+    std::set<uint64_t> hs;
+    if (do_ref) hs.insert(stream_hash(ref[j], referr[j]));
+    for (int t = 0; t < nthreads; t++)
+      for (int k = 0; k < NJOBS; k++)
+        if ((k + t * 5) % NJOBS == j) hs.insert(stream_hash(got[t][k], goterr[t][k]));
+    jh += j ? ",[" : "[";
+    bool f = true;
+    for (uint64_t h : hs) {
+      jh += fmt("%s\"%016llx\"", f ? "" : ",", (unsigned long long)h);
+      f = false;
+    }
+    jh += "]";
+  }
+  jh += "]";
+  fprintf(OUT, "{\"job_hashes\":%s,", jh.c_str());
+  fprintf(OUT, "\"mode\":\"stress\",\"threads\":%d,\"streams\":%ld,\"events\":%ld,\"jobs\":%d,\"jobs_accepted\":%d,\"qng_calls\":%ld,\"qng_etol\":%ld,\"integration_with_handler_on\":%ld,", nthreads, streams,
           events, NJOBS, accepted, g_qng_calls.load(), g_qng_etol.load(), g_i1_violations.load());
   emit_mismatches(OUT, "mismatches", mm);
   fprintf(OUT, "}\n");
@@ -617,6 +643,19 @@ int main(int argc, char ** argv)
   if (mode == "firstuse" && argc >= 5) return run_firstuse(strtoull(argv[2], 0, 10), atoi(argv[3]), argv[4]);
   if (mode == "sweep" && argc >= 6) return run_sweep(strtoull(argv[2], 0, 10), atoi(argv[3]), argv[4], atoi(argv[5]));
   if (mode == "sched") return run_sched(atoi(argv[2]));
+  if (mode == "alone" && argc >= 4) {
+    // one configuration, one instance, one thread, nothing else in the process
+    if (argc > 4 && std::string(argv[4]) != "-") setenv("BXDECAY0_DBD_GA_DATA_DIR", argv[4], 1);
+    int j = atoi(argv[3]);
+    if (j < 0 || j >= NJOBS) return 2;
+    std::string err;
+    std::vector<std::string> v = run_job(JOBS[j], strtoull(argv[2], 0, 10), 40, err);
+    uint64_t h = hash_str(err);
+    for (auto & x : v) h = h * 1099511628211ull ^ hash_str(x);
+    fprintf(OUT, "{\"mode\":\"alone\",\"job\":%d,\"njobs\":%d,\"name\":%s,\"level\":%d,\"dbd_mode\":%d,\"events\":%zu,\"hash\":\"%016llx\"}\n", j, NJOBS, jstr(JOBS[j].name).c_str(), JOBS[j].level,
+            JOBS[j].mode, v.size(), (unsigned long long)h);
+    return 0;
+  }
   if (mode == "stress") {
     if (argc > 4 && std::string(argv[4]) != "-") setenv("BXDECAY0_DBD_GA_DATA_DIR", argv[4], 1);
     return run_stress(strtoull(argv[2], 0, 10), atoi(argv[3]));
